@@ -85,9 +85,12 @@ func crashLine(stderr []byte) string {
 	return lastLine(stderr)
 }
 
+const maxJobTimeouts = 4
+
 // runJob runs the cases of one job, restarting the host as often as needed.
 func (r *runner) runJob(j job) {
 	rest := j.idx
+	jobTimeouts := 0
 	for len(rest) > 0 {
 		done, stderr, err := r.runHost(j.variant, rest)
 		timedOut := done > 0 && strings.HasSuffix(r.results[rest[done-1]], " timeout")
@@ -98,8 +101,17 @@ func (r *runner) runJob(j job) {
 		// the host stopped early: rest[0] is the case it was working on,
 		// unless it already reported a timeout for the last finished one
 		if timedOut {
-			// the timeout line is the result of that case; just go on
+			// the timeout line is the result of that case; just go on — but a job that keeps timing out
+			// (a hang introduced into the code under test) must not take hours: after maxJobTimeouts
+			// the remaining cases of the job are not run
 			r.restarts.Add(1)
+			jobTimeouts++
+			if jobTimeouts >= maxJobTimeouts {
+				for _, i := range rest {
+					r.results[i] = "res " + r.ids[i] + " timeout-skipped"
+				}
+				return
+			}
 			continue
 		}
 		msg := crashLine(stderr)
